@@ -10,6 +10,8 @@ ATTACH = {
     "src/bit_encoding/bititer.rs": "bititer.rs",
     "src/lib.rs": "std_specs.rs",
     "src/analysis.rs": "analysis.rs",
+    "src/bit_machine/frame.rs": "frame.rs",
+    "src/bit_encoding/bitwriter.rs": "bitwriter.rs",
 }
 
 
